@@ -260,11 +260,18 @@ func c08EncoderWire(fn *ssa.Function) (types.Type, string) {
 			// []byte(`"` + … + `"`)
 			if bo, ok := x.X.(*ssa.BinOp); ok && bo.Op == token.ADD {
 				if q, ok := constStringB(bo.Y); ok && q == `"` {
-					if in, ok := bo.X.(*ssa.BinOp); ok && in.Op == token.ADD {
-						if q2, ok := constStringB(in.X); ok && q2 == `"` {
-							rt = types.Typ[types.String]
-							rd = "string (quoted by hand)"
+					// leftmost operand of the concatenation chain is the opening quote
+					left := bo.X
+					for {
+						in, ok := left.(*ssa.BinOp)
+						if !ok || in.Op != token.ADD {
+							break
 						}
+						left = in.X
+					}
+					if q2, ok := constStringB(left); ok && q2 == `"` && left != bo.X {
+						rt = types.Typ[types.String]
+						rd = "string (quoted by hand)"
 					}
 				}
 			}
